@@ -34,7 +34,7 @@ pub fn decode(s: &mut Src) -> Case {
 pub fn check(rep: &Report) {
     rep.assume("client name truncation granularity is the UTF-16 code unit (a surrogate pair split at the cut is not flagged)");
     rep.assume("TS_SHAREDATAHEADER.uncompressedLength may follow either convention seen in the field (== totalLength, or payload + 4)");
-    rep.random("connections", rep.tier.n(40_000, 2_000_000), 260, decode, run);
+    rep.random("connections", rep.tier.n(60_000, 3_000_000), 260, decode, run);
     // NTLM tokens: the strict MS-NLMP layout rules of the C15 verifier (offset/length pairs, MIC position, field encodings)
     rep.random("ntlm-tokens", rep.tier.n(20_000, 1_000_000), 200, crate::props::c15::decode, crate::props::c15::run);
     rep.require("connections", "non-ascii-name", 1000);
